@@ -325,6 +325,89 @@ func init() {
 				sc := &SeqCase{DocText: doc, Doc: mustParse(doc), Ops: []ref.Op{{Kind: "add", Path: path, Value: mustParse(val), HasValue: true}}, OpTexts: []string{OpText("add", path, "", val, true)}}
 				judgeEnsure(c, sc, V5Opts{NegIdx: idx%3 != 0, EscapeHTML: true})
 			}},
+			{Name: "test-then-ensure-add", Count: n(15000, 400000), Run: func(c *core.Ctx, idx int) {
+				// passing test operations come first (on the root, on ancestors of the path, on siblings: comparing
+				// parses - and half-parses - the nodes it visits), then the ensure-path add through those nodes
+				o := V5Opts{NegIdx: c.R.Intn(2) == 0, EscapeHTML: true, EnsurePath: true}
+				tp := prof.With(func(p *gen.Profile) { p.ScalarBias = 25; p.Width = 4 })
+				sc := &SeqCase{Opts: o.Ref()}
+				sc.DocText = tp.Root(c.R)
+				sc.Doc = mustParse(sc.DocText)
+				e := ref.New(sc.Doc, o.Ref())
+				res, _ := gen.Pointers(e.Root)
+				// the add: an existing container, then one to three new tokens
+				var pre string
+				for i := 0; i < 20; i++ {
+					pre = res[c.R.Intn(len(res))]
+					if v := valueAt(e, pre); v != nil && (v.K == jr.Obj || v.K == jr.Arr) {
+						break
+					}
+					pre = ""
+				}
+				for k := 1 + c.R.Intn(2); k > 0; k-- {
+					// tests on the root, on prefixes of the chosen place, on anything else
+					var tpth string
+					switch c.R.Intn(3) {
+					case 0:
+						tpth = ""
+					case 1:
+						tpth = pre
+						if i := strings.LastIndex(pre, "/"); i > 0 && c.R.Intn(2) == 0 {
+							tpth = pre[:i]
+						}
+					default:
+						tpth = res[c.R.Intn(len(res))]
+					}
+					cur := valueAt(e, tpth)
+					if cur == nil {
+						continue
+					}
+					vt := tp.Respell(c.R, cur, true)
+					sc.Ops = append(sc.Ops, ref.Op{Kind: "test", Path: tpth, Value: mustParse(vt), HasValue: true})
+					sc.OpTexts = append(sc.OpTexts, OpText("test", tpth, "", vt, true))
+				}
+				path := pre
+				for k := 1 + c.R.Intn(3); k > 0; k-- {
+					t := []string{"n0", "n1", "0", "1", "2", jr.EncTok(tp.Keys[c.R.Intn(len(tp.Keys))])}[c.R.Intn(6)]
+					if k == 1 && c.R.Intn(5) == 0 {
+						t = "-"
+					}
+					path += "/" + t
+				}
+				sc.Ops = append(sc.Ops, ref.Op{Kind: "add", Path: path, Value: mustParse(`"v"`), HasValue: true})
+				sc.OpTexts = append(sc.OpTexts, OpText("add", path, "", `"v"`, true))
+				c.Count("test-then-ensure-add:cases")
+				want := ref.Eval(sc.Doc, sc.Ops, o.Ref())
+				if want.OutOfDom != "" {
+					c.Count("out_of_domain")
+					return
+				}
+				r := ApplyV5(sc.DocText, sc.Patch(), o, "")
+				c.Eval(1)
+				d := sc.Describe()
+				d["options"], d["library_output"], d["library_error"] = o.String(), clip(string(r.Out), 1500), errText(r.Err)
+				if r.Panic != nil {
+					d["panic"] = panicDetail(r.Panic)
+					c.Violation(r.Panic.Sig(), d)
+					return
+				}
+				if (want.Doc == nil) != (r.Err != nil) {
+					if want.Doc != nil {
+						d["reference"] = clip(want.Doc.String(), 1500)
+					}
+					c.Violation("test-then-ensure-add:success-differs-from-reference", d)
+					return
+				}
+				if want.Doc != nil {
+					got, err := jr.Parse(r.Out)
+					if err != nil || !jr.Equal(want.Doc, got, jr.EqMode{Ordered: true}) {
+						d["reference"] = clip(want.Doc.String(), 1500)
+						c.Violation("test-then-ensure-add:value-mismatch-with-reference", d)
+						return
+					}
+					c.Nontrivial(sc.Canon())
+				}
+			}},
 			{Name: "shrink-then-pad", Count: n(15000, 400000), Run: func(c *core.Ctx, idx int) {
 				// arrays that were in the document lose elements (remove, move away) and are then padded by an
 				// add through an index beyond their new end: the padding must be null, not what used to be there
